@@ -1020,6 +1020,9 @@ package hashgraph
 //@   loop 2 invariant[memo] h.MemoOK()
 //@   loop 2 invariant[above] i > r
 //@   loop 3 invariant[memo] h.MemoOK()
+//@   ensures[only-undetermined] ret0 == nil ==> (forall k int :: 0 <= k && k < len(h.UndeterminedEvents) ==> (exists j int :: 0 <= j && j < len(old(h.UndeterminedEvents)) && h.UndeterminedEvents[k] == old(h.UndeterminedEvents)[j]))
+//@   loop 1 invariant[queue] !(newUndeterminedEvents == nil) && __eq(h.UndeterminedEvents, old(h.UndeterminedEvents))
+//@   loop 1 invariant[subset] forall k int :: 0 <= k && k < len(newUndeterminedEvents) ==> (exists j int :: 0 <= j && j < __idx() && newUndeterminedEvents[k] == old(h.UndeterminedEvents)[j])
 //@   loop 3 invariant[see]  len(s) <= __idx() && (len(s) == __idx() ==> (forall k int :: 0 <= k && k < __idx() ==> AncV(h, fws[k], x)))
 
 // ------------------------------------------------------------------------------------------------
